@@ -64,7 +64,16 @@ func childMain(args []string) {
 	if len(args) < 1 {
 		os.Exit(99)
 	}
-	for _, st := range strings.Split(args[0], ";") {
+	spec := args[0]
+	if strings.HasPrefix(spec, "@") {
+		// long scripts come in a file (a single argument is limited to 128 KiB)
+		b, err := os.ReadFile(spec[1:])
+		if err != nil {
+			os.Exit(98)
+		}
+		spec = string(b)
+	}
+	for _, st := range strings.Split(spec, ";") {
 		f := strings.Split(st, ":")
 		switch f[0] {
 		case "o", "e":
@@ -338,7 +347,17 @@ func streamMain(args []string) {
 		if withEnv {
 			env = []string{"VERIF_EXTRA=value " + strconv.Itoa(i)}
 		}
-		p, err := subprocess.NewWithEnvironment(context.Background(), rec, env, "START", "SUCCESS", "FAILURE", exe, "child", script)
+		scriptArg := script
+		if len(script) > 60000 {
+			f, ferr := os.CreateTemp("", "verif-stream-script")
+			if ferr == nil {
+				_, _ = f.WriteString(script)
+				_ = f.Close()
+				scriptArg = "@" + f.Name()
+				defer os.Remove(f.Name())
+			}
+		}
+		p, err := subprocess.NewWithEnvironment(context.Background(), rec, env, "START", "SUCCESS", "FAILURE", exe, "child", scriptArg)
 		if err != nil {
 			rep.Fail(hx.Failure{Kind: "harness-error", Key: "subprocess-new", Detail: err.Error()})
 			continue
